@@ -330,7 +330,12 @@ def mrpWriteOk (s : State) (o : Obj) (x : Sentinel) : Bool :=
     s.phase == .normal && s.cachedOf o.n == .running && !fmDone s o.n o.f &&
     (s.kind o.n == .pipeline || s.st ⟨o.n, o.f, .join⟩ == some .complete)
   | .disabled, .fork =>
-    s.phase == .normal && s.cachedOf o.n == .running &&
+    -- `Fork.disabled`/`writeDisable` in `stepStage`/`stepPipeline` (cached state
+    -- running) and, for a fork found empty while `Node.step` expands the forks of
+    -- a node that is just becoming runnable (live state running, cache not yet updated)
+    ((s.phase == .normal && (s.cachedOf o.n == .running || nodeState s o.n == .running)) ||
+      -- `RestoreForks` re-runs the expansion while re-attaching
+      s.phase == .loading) &&
     (s.kind o.n == .pipeline || forkState s o.n o.f == .ready)
   | _, _ => false
 
